@@ -944,4 +944,183 @@ theorem npq_inj (cfg : Cfg) {path path' : Bytes} {m m' : Map} (hp : 63 ∉ path)
   unfold keptOf at this
   rwa [parseQuery_joinParams hm, parseQuery_joinParams hm'] at this
 
+/-! ### acceptance by `PathAndQuery` does not depend on the order of the parameters -/
+
+theorem pieces_ne_nil (c : Nat) (q : Bytes) : pieces c q ≠ [] := by simp [pieces]
+
+theorem amp_cons_cons (p q : Bytes) (rest : List Bytes) : amp (p :: q :: rest) = p ++ 38 :: amp (q :: rest) := by
+  simp [amp]
+
+theorem amp_pieces (q : Bytes) : amp (pieces 38 q) = q := by
+  induction q with
+  | nil => simp [pieces, splitAll, amp]
+  | cons x r ih =>
+    by_cases hx : x = 38
+    · subst hx
+      rw [pieces_cons_sep]
+      cases hp : pieces 38 r with
+      | nil => exact absurd hp (pieces_ne_nil 38 r)
+      | cons p' rest' => rw [amp_cons_cons, ← hp, ih]; rfl
+    · rw [pieces_cons_ne hx]
+      have : amp ((splitAll 38 r).1 :: (splitAll 38 r).2) = r := ih
+      simp only [amp, List.cons_append] at this ⊢
+      rw [this]
+
+theorem length_amp_succ {ps : List Bytes} (h : ps ≠ []) :
+    (amp ps).length + 1 = (ps.flatMap (· ++ [38])).length := by
+  rw [← dropLast_flatMap_amp, List.length_dropLast]
+  cases ps with
+  | nil => exact absurd rfl h
+  | cons p rest => simp; omega
+
+/-- the sanitised query has the same length whatever the order of its pieces. -/
+theorem length_sanitize_perm {Q Q' : Bytes} (h : (pieces 38 Q).Perm (pieces 38 Q')) :
+    (sanitize Q).length = (sanitize Q').length := by
+  have e : ∀ q : Bytes, (sanitize q).length + 1 = (((pieces 38 q).map sanitize).flatMap (· ++ [38])).length := by
+    intro q
+    have h38 : shouldEncode urlSet 38 = false := by decide
+    have : sanitize q = amp ((pieces 38 q).map sanitize) := by
+      conv => lhs; rw [← amp_pieces q]
+      exact pctEncode_amp h38 _
+    rw [this, length_amp_succ (by simp [pieces_ne_nil])]
+  have hp : (((pieces 38 Q).map sanitize).flatMap (· ++ [38])).Perm
+      (((pieces 38 Q').map sanitize).flatMap (· ++ [38])) :=
+    List.Perm.flatMap_right _ (h.map _)
+  have := hp.length_eq
+  have e1 := e Q
+  have e2 := e Q'
+  omega
+
+theorem mem_pctEncode_cases {S : List Nat} {x : Bytes} {b : Nat} (h : b ∈ pctEncode S x) :
+    (b = 37 ∨ (48 ≤ b ∧ b ≤ 57) ∨ (65 ≤ b ∧ b ≤ 70)) ∨ (b ∈ x ∧ shouldEncode S b = false) := by
+  induction x with
+  | nil => cases h
+  | cons a r ih =>
+    rw [pctEncode_cons] at h
+    rcases List.mem_append.mp h with h | h
+    · cases ha : shouldEncode S a with
+      | true => rw [encOne_of_true ha] at h; exact Or.inl (mem_encByte h)
+      | false =>
+        rw [encOne_of_false ha] at h
+        have : b = a := by simpa using h
+        subst this
+        exact Or.inr ⟨by simp, ha⟩
+    · rcases ih h with h | h
+      · exact Or.inl h
+      · exact Or.inr ⟨List.mem_cons_of_mem _ h.1, h.2⟩
+
+theorem queryClass_of_not_encoded : ∀ b, b < 128 → shouldEncode urlSet b = false → queryClass b = .valid := by
+  decide
+
+theorem shouldEncode_false_lt {S : List Nat} {b : Nat} (h : shouldEncode S b = false) : b < 128 := by
+  unfold shouldEncode at h
+  simp only [Bool.or_eq_false_iff, decide_eq_false_iff_not] at h
+  omega
+
+theorem queryClass_of_escape :
+    ∀ b, b < 128 → (b = 37 ∨ (48 ≤ b ∧ b ≤ 57) ∨ (65 ≤ b ∧ b ≤ 70)) → queryClass b = .valid := by
+  decide
+
+theorem queryClass_sanitize {x : Bytes} {b : Nat} (h : b ∈ sanitize x) : queryClass b = .valid := by
+  rcases mem_pctEncode_cases h with h | ⟨_, h⟩
+  · exact queryClass_of_escape b (by omega) h
+  · exact queryClass_of_not_encoded b (shouldEncode_false_lt h) h
+
+theorem scanQuery_of_valid {r : Bytes} (h : ∀ b ∈ r, queryClass b = .valid) : scanQuery r = some r := by
+  induction r with
+  | nil => rfl
+  | cons b r ih =>
+    unfold scanQuery
+    rw [h b (by simp)]
+    simp [ih (fun x hx => h x (List.mem_cons_of_mem _ hx))]
+
+/-- the first loop over `a ++ '?' :: r` looks at `a` only. -/
+theorem scanPath_append_query {a : Bytes} (h63 : 63 ∉ a) (h35 : 35 ∉ a) (r r' : Bytes) :
+    (scanPath (a ++ 63 :: r)).isSome = true → scanPath (a ++ 63 :: r') = some (a, some r') := by
+  induction a with
+  | nil => intro _; simp [scanPath, pathClass_63]
+  | cons b a ih =>
+    intro h
+    have hb : b ≠ 63 := fun e => h63 (by simp [e])
+    have hb35 : b ≠ 35 := fun e => h35 (by simp [e])
+    have ih := ih (fun e => h63 (List.mem_cons_of_mem _ e)) (fun e => h35 (List.mem_cons_of_mem _ e))
+    simp only [List.cons_append] at h ⊢
+    unfold scanPath at h ⊢
+    cases hc : pathClass b with
+    | query => exact absurd (pathClass_query hc) hb
+    | fragment => exact absurd (pathClass_fragment hc) hb35
+    | invalid => rw [hc] at h; simp at h
+    | valid =>
+      rw [hc] at h
+      simp only at h ⊢
+      cases hr : scanPath (a ++ 63 :: r) with
+      | none => rw [hr] at h; simp at h
+      | some _ => rw [ih (by rw [hr]; rfl)]
+    | high =>
+      rw [hc] at h
+      simp only at h ⊢
+      cases hr : scanPath (a ++ 63 :: r) with
+      | none => rw [hr] at h; simp at h
+      | some _ => rw [ih (by rw [hr]; rfl)]
+
+/-- **`PathAndQuery` accepts `P?Q'` whenever it accepts `P?Q` and `Q'` has the pieces of `Q` in
+another order** (acceptance depends on the path part, the first byte and the total length only). -/
+theorem accepted_perm (P Q Q' : Bytes) (hP : 63 ∉ P) (h : (pieces 38 Q).Perm (pieces 38 Q'))
+    (hacc : (pqParse (sanitize (P ++ 63 :: Q))).isSome = true) :
+    (pqParse (sanitize (P ++ 63 :: Q'))).isSome = true := by
+  have hs : ∀ q : Bytes, sanitize (P ++ 63 :: q) = sanitize P ++ 63 :: sanitize q := by
+    intro q
+    unfold sanitize
+    rw [pctEncode_append, pctEncode_cons, encOne_of_false shouldEncode_urlSet_63]; rfl
+  have h63 : 63 ∉ sanitize P := not_mem_pctEncode_of_not_mem isDelim_63 hP
+  have h35 : 35 ∉ sanitize P := not_mem_sanitize_35 P
+  have hlen := length_sanitize_perm h
+  rw [hs] at hacc ⊢
+  unfold pqParse at hacc ⊢
+  have e1 : ∀ q : Bytes, (sanitize P ++ 63 :: sanitize q).isEmpty = false := by intro q; simp
+  have e2 : (sanitize P ++ 63 :: sanitize Q').length = (sanitize P ++ 63 :: sanitize Q).length := by
+    simp [hlen]
+  have e3 : ∀ q : Bytes, ((sanitize P ++ 63 :: sanitize q) == [42]) = false := by
+    intro q
+    cases hp : sanitize P with
+    | nil => simp
+    | cons a r => cases r <;> simp
+  have e4 : ∀ q : Bytes, (sanitize P ++ 63 :: sanitize q).head? = (sanitize P ++ 63 :: sanitize Q).head? := by
+    intro q; cases sanitize P <;> rfl
+  rw [e1, e2, e3, e4 Q']
+  rw [e1, e3] at hacc
+  simp only [Bool.false_eq_true, if_false] at hacc ⊢
+  split
+  · rename_i hl; rw [if_pos hl] at hacc; cases hacc
+  · rename_i hl
+    rw [if_neg hl] at hacc
+    split
+    · rename_i hh; rw [if_pos hh] at hacc; cases hacc
+    · rename_i hh
+      rw [if_neg hh] at hacc
+      have hsp : (scanPath (sanitize P ++ 63 :: sanitize Q)).isSome = true := by
+        cases hx : scanPath (sanitize P ++ 63 :: sanitize Q) with
+        | none => rw [hx] at hacc; cases hacc
+        | some _ => rfl
+      rw [scanPath_append_query h63 h35 _ (sanitize Q') hsp]
+      simp only [scanQuery_of_valid (fun b hb => queryClass_sanitize (x := Q') hb)]
+      rfl
+
+/-! ### small helpers used by Props/C09 -/
+
+theorem splitFirst_url (P Q : Bytes) (hP : 63 ∉ P) : splitFirst 63 (P ++ 63 :: Q) = (P, some Q) := by
+  rw [splitFirst_append_of_not_mem 63 P _ hP]
+  simp [splitFirst]
+
+theorem paramsOf_url (P Q : Bytes) (hP : 63 ∉ P) : paramsOf (P ++ 63 :: Q) = btCollect (parseQuery Q) := by
+  rw [paramsOf_eq, splitFirst_url P Q hP]
+
+theorem lowerByte_idem (b : Nat) : lowerByte (lowerByte b) = lowerByte b := by
+  unfold lowerByte; split <;> (try split) <;> omega
+
+theorem lowerIf_idem (f : Bool) (s : Bytes) : lowerIf f (lowerIf f s) = lowerIf f s := by
+  cases f
+  · rfl
+  · simp [lowerIf, lowerAscii, lowerByte_idem]
+
 end Rio.Url
